@@ -389,3 +389,10 @@ func mustTemp(prefix string) string {
 	}
 	return d
 }
+
+func marshalCommands(cmds []database.Command) ([]byte, error) {
+	if len(cmds) == 0 {
+		return []byte("[]\n"), nil
+	}
+	return yaml.Marshal(cmds)
+}
